@@ -57,6 +57,10 @@ def differential(chk: core.Check, driver: str, cases: list, to_coq, imports: str
         corr, orac = core.run_cases(chk.prop, imports, terms, run_fn=run_fn, chunk=chunk)
     reported = 0
     per = {}
+    import os as _os
+    if _os.environ.get("VERIF_DEBUG_DUMP"):
+        for i in sorted(set(orac) | set(corr)):
+            print("  dump", "ORACLE" if i in orac else "      ", "CORR" if i in corr else "    ", kind(cases[i]), json.dumps(outs[i], default=str)[:int(_os.environ["VERIF_DEBUG_DUMP"])])
     for i in orac:
         rid = region(cases[i], outs[i])
         if rid is not None and rid in known:
